@@ -10,10 +10,11 @@ LEVEL = 'proof'
 LEAN_TARGETS = ['Swiftness.Props.C15']
 BUILDS = {'quick': [('k160', 'stone5', 'full')], 'thorough': [('k160', 'stone5', 'full')]}
 RULE = ('diluted cases: all (n_bits 1..NB, spacing 0..8) with random and edge z, alpha (NB = 10 quick / 16 thorough, plus the '
-        "layouts' (16,4)); memory cases: random main pages (0..40 cells), 0..3 continuous page headers, sizes around the total length, "
+        "layouts' (16,4)); large parameters n in {11..200} x spacing in {1..300, 2^32+4, 2^64+4, P-1} (quick: a quarter of them) and the "
+        "pairs around (n-1)*spacing = 64; memory cases: random main pages (0..40 cells), 0..3 continuous page headers, sizes around the total length, "
         'padding cells, edge z/alpha incl. a z that zeroes a factor. non-trivial = n_bits >= 2 or >= 1 public cell.')
 ASSUMPTIONS = ['Felt arithmetic of starknet-types-core modelled as Fin P (compared on every case)']
-TRUSTED = ['Python oracle: r_1 = 1, r_(j+1) = r_j (1 + z u_j) + alpha u_j^2 over all 2^n diluted values; z^size / prod(z - (a + alpha v))']
+TRUSTED = ['Python oracle (n > 14: x_i from the definition of Dilute + doubling identities, cross-check only): r_1 = 1, r_(j+1) = r_j (1 + z u_j) + alpha u_j^2 over all 2^n diluted values; z^size / prod(z - (a + alpha v))']
 
 
 def dilute(j, s, n):
@@ -32,6 +33,19 @@ def diluted_naive(n, s, z, al):
         prev = d
         r = (r * (1 + z * u) + al * u * u) % P
     return r
+
+
+def diluted_doubling(n, s, z, al):
+    """for n too large for the naive walk: x_i = u_(2^i) = Dilute(2^i) - Dilute(2^i - 1) taken from the DEFINITION of Dilute over the
+    integers (not from the code's running difference), then the doubling identities for the block products; the Lean theorem
+    closed_form_eq_recurrence is what justifies the doubling, this is only the cross-check of the real code against the model"""
+    p_, q_ = (1 + z) % P, 1
+    for i in range(1, n):
+        x = (pow(2, i * s, P) - sum(pow(2, b * s, P) for b in range(i))) % P
+        y = p_ * (1 + z * x) % P
+        q_ = (q_ * y + x * x * p_ + q_) % P
+        p_ = p_ * y % P
+    return (p_ + al * q_) % P
 
 
 def mk_d(n, s, z, al):
@@ -60,6 +74,15 @@ def cases(rng, tier, feats, drv_ok):
             if tier == 'quick' and (n * 9 + s) % 3 != rng.below(3) and n > 3: continue
             out.append(mk_d(n, s, rng.edge_felt(), rng.edge_felt()))
     out.append(mk_d(16, 4, rng.felt(), rng.felt()))
+    # parameters past every machine-word boundary ((n-1)*spacing around 32, 64, 128, 252; spacing itself >= 32 / 64 / 2^32 / 2^64)
+    BIGN = [11, 12, 15, 16, 17, 18, 20, 24, 32, 33, 64, 65, 100, 128, 200]
+    BIGS = [1, 2, 3, 4, 5, 7, 8, 15, 16, 17, 31, 32, 33, 63, 64, 65, 100, 127, 128, 251, 252, 300, (1 << 32) + 4, (1 << 64) + 4, P - 1]
+    for n in BIGN:
+        for sp in BIGS:
+            if tier == 'quick' and not rng.chance(1, 4): continue
+            out.append(mk_d(n, sp, rng.edge_felt(), rng.edge_felt()))
+    for n, sp in [(18, 4), (17, 4), (6, 16), (5, 16), (10, 8), (9, 8), (4, 32), (3, 32), (2, 64), (2, 65), (3, 63)]:
+        out.append(mk_d(n, sp, rng.felt(), rng.felt()))
     for _ in range(60 if tier == 'quick' else 600):
         m = rng.choice([0, 1, 2, 3, 8, 40])
         page = [(rng.choice([rng.below(1 << 20), rng.felt()]), rng.edge_felt()) for _ in range(m)]
@@ -88,7 +111,7 @@ def oracle(c, co):
     if c['kind'] == 'diluted':
         if co[0] != 'ok':
             return {'key': 'diluted:noval', 'what': f"get_diluted_product({c['n']},{c['s']}) did not return: {co}"}
-        want = diluted_naive(c['n'], c['s'], c['z'], c['al'])
+        want = diluted_naive(c['n'], c['s'], c['z'], c['al']) if c['n'] <= 14 and c['s'] <= 64 else diluted_doubling(c['n'], c['s'], c['z'], c['al'])
         if int(co[1], 16) != want:
             return {'key': 'diluted:value', 'what': f"get_diluted_product({c['n']},{c['s']},z,alpha) != defining recurrence"}
         return None
